@@ -230,8 +230,13 @@ def check(ctx):
     # enqueue sites
     enq = 0
     for q, fn in hj.functions():
+        qdefs = None
         for c in calls_in(fn):
-            if last_attr(c) == "append" and c.args and unparse(c.args[0]) == "self" and "queue" in unparse(c.func):
+            if not (last_attr(c) == "append" and c.args and unparse(c.args[0]) == "self" and isinstance(c.func, ast.Attribute)):
+                continue
+            qdefs = qdefs or df.all_defs(fn)
+            recv = df.resolve_copy(qdefs, c.func.value)
+            if "queue" in unparse(recv) or "queue" in unparse(c.func.value):
                 enq += 1
                 cfg = CFG(fn)
                 n0 = node_in(cfg, stmt_of(c))
